@@ -875,6 +875,13 @@ def replay_case(case: dict, out: Outcome, ops: list[str], exp: list[str], owner:
 
 
 def run(env: Env) -> Outcome:
+    try:
+        return _run(env)
+    finally:
+        restart.sweep_dbs()
+
+
+def _run(env: Env) -> Outcome:
     out = Outcome()
     out.rule = ("deterministic fan-out/collect workflows (specgen.gen_det_spec; 1..3 workers, retries without delay; a share with retry delays for "
                 "classification; a family of steps suspended in wait_for_event with/without requirements answered from outside) plus hand-picked edge workflows for every exit kind, on the real server stack with memory and sqlite stores; "
